@@ -71,7 +71,24 @@ def metamorphic(ctx, rng):
         tol = 0.0 if c in (2.0, 0.25) else TOL[method]
         ctx.case(dict(desc, c=c, max_rel_diff=d), nontrivial=nt, kind="meta/%s/c=%g" % (method, c))
         if d > tol:
-            ctx.oracle_fail("dates-changed", "%s c=%g: %s differs by %.3g (tolerance %g)" % (method, c, key, d, tol), replay)
+            sig = "dates-changed"
+            if tol > 0.0 and method == "variational_gamma" and kw.get("rescaling_intervals", 1000) != 0:
+                # Knife-edge diagnosis (finding K11): the time-rescaling step picks its changepoints by
+                # comparing cumulative mass fractions with k/epochs (searchsorted); an EXACT tie can flip
+                # under the last-bit rounding of an inexact scale factor.  That is the case iff the same
+                # input is bit-identical under an exact (power-of-two) factor of similar size AND agrees to
+                # tolerance once the rescaling step is switched off.  Anything else stays a violation.
+                import math
+                c2 = 2.0 ** round(math.log2(c))
+                ra = D.call(method, D.scale_coordinates(ts, c2), **dict(kw, mutation_rate=kw["mutation_rate"] / c2))
+                kw0 = dict(kw, rescaling_intervals=0)
+                rb, rc = D.call(method, ts, **kw0), D.call(method, D.scale_coordinates(ts, c), **dict(kw0, mutation_rate=kw["mutation_rate"] / c))
+                if ra[0] == "ok" and rb[0] == "ok" and rc[0] == "ok":
+                    d_exact = D.max_rel_diff(a, D.result_arrays(ra[1]))[0]
+                    d_norescale = D.max_rel_diff(D.result_arrays(rb[1]), D.result_arrays(rc[1]))[0]
+                    if d_exact == 0.0 and d_norescale <= tol:
+                        sig = "rescaling-changepoint-tie"
+            ctx.oracle_fail(sig, "%s c=%g: %s differs by %.3g (tolerance %g)" % (method, c, key, d, tol), replay)
 
 
 def run(ctx, model_ok=True):
